@@ -636,21 +636,21 @@ example : ∀ s' out b, UHS.take Eub 60 30 (UHS.St.empty Gu) [] = some (s', out,
     sweep over the argument positions along the successor chains); when the start heap is empty every
     start symbol answered `None` and everything it popped was handed over (`UHS.OC`). -/
 theorem C02_HS_U_complete (E : UHS.Env U π) (rank : UHS.UNT U → Nat) (Good : π → Prop) (R : RHyp E rank Good)
-    (d : UHS.UNT U) (fuel k : Nat) (s' : UHS.St U π) (out : List Prog)
+    (hf : ∀ p, E.filter p = true) (d : UHS.UNT U) (fuel k : Nat) (s' : UHS.St U π) (out : List Prog)
     (h : UHS.take E fuel k (UHS.St.empty E.G) [] = some (s', out, true)) :
     ∀ p, PS.U.genU (E.G.toUCFG d) p = true → p ∈ out := by
   intro p hp
   obtain ⟨nt, w, hw, hd⟩ := (derStart_iff_genU E d p).mpr hp
-  exact take_complete R fuel k s' out h p nt w hw hd
+  exact take_complete R fuel k s' out h p nt w hw hd (PS.HG.clean_of_all E.filter hf p)
 
 /-- **exactly once**: when the generator stops, its output lists the language without repetition -/
 theorem C02_HS_U_exactly_once (E : UHS.Env U π) (rank : UHS.UNT U → Nat) (Good : π → Prop) (R : RHyp E rank Good)
-    (d : UHS.UNT U) (fuel k : Nat) (s' : UHS.St U π) (out : List Prog)
+    (hf : ∀ p, E.filter p = true) (d : UHS.UNT U) (fuel k : Nat) (s' : UHS.St U π) (out : List Prog)
     (h : UHS.take E fuel k (UHS.St.empty E.G) [] = some (s', out, true)) :
     out.Nodup ∧ ∀ p, p ∈ out ↔ PS.U.genU (E.G.toUCFG d) p = true :=
   ⟨(take_nodup E R.nhyp fuel k s' out true h).1,
    fun p => ⟨fun hp => C02_HS_U_sound E R.ohyp.ghyp d fuel k s' out true h p hp,
-             fun hp => C02_HS_U_complete E rank Good R d fuel k s' out h p hp⟩⟩
+             fun hp => C02_HS_U_complete E rank Good R hf d fuel k s' out h p hp⟩⟩
 
 /-- the inner statement: in a quiescent state, an exhausted non-terminal has popped every program
     derivable from it all of whose sub-programs are accepted by the filter (`HG.clean`; no filter: every
@@ -665,30 +665,30 @@ def uRank2 (nt : UHS.UNT Nat) : Nat := nt.2
 
 theorem Eu_rhyp : RHyp Eu uRank2 (fun v : Rat => 0 ≤ v) :=
   rhyp_prob Eu uRank2 rfl rfl (by decide) (by decide) (by decide) (by decide) (by decide) (by decide) (by decide)
-    (by decide +kernel) (by decide) (fun _ => rfl)
+    (by decide +kernel) (by decide)
 
 /-- on the three-start grammar the generator stops after its 22 programs, which are exactly the language -/
 example : ∀ s' out, UHS.take Eu 60 30 (UHS.St.empty Gu) [] = some (s', out, true) →
     out.Nodup ∧ ∀ p, p ∈ out ↔ PS.U.genU (Gu.toUCFG s0) p = true :=
-  fun s' out h => C02_HS_U_exactly_once Eu uRank2 _ Eu_rhyp s0 60 30 s' out h
+  fun s' out h => C02_HS_U_exactly_once Eu uRank2 _ Eu_rhyp (fun _ => rfl) s0 60 30 s' out h
 
 /-- **every `query(S, program)` returns** (no KeyError, no failed assertion, fuel not exhausted) with fuel
     `(rank S + 1) · (L + Al + A + 6)` in a state that satisfies the invariants, `L` / `Al` / `A` bounding
     the number of rules of a non-terminal, of alternatives of a rule and of arguments (`UHS.THyp`: also
     every non-terminal used has a row and no row is empty) -/
 theorem C02_HS_U_query_total (E : UHS.Env U π) (rank : UHS.UNT U → Nat) (Good : π → Prop) (H : OHyp E rank Good)
-    (L Al A : Nat) (T : THyp E L Al A) (nt : UHS.UNT U) (hrow : ∃ rs, AList.lookup nt E.G.rules = some rs)
+    (hf : ∀ p, E.filter p = true) (L Al A : Nat) (T : THyp E L Al A) (nt : UHS.UNT U) (hrow : ∃ rs, AList.lookup nt E.G.rules = some rs)
     (n : Nat) (s : UHS.St U π) (p : Option Prog) (hn : (rank nt + 1) * (L + Al + A + 6) ≤ n)
     (hb : Base E s) (hc : CacheC s) (hpre : OPre E rank (.query nt p) s) : ∃ res, UHS.query E n s nt p = some res :=
-  (low_all H T (rank nt + 1)).query nt (Nat.lt_succ_self _) hrow n s p hn hb hc hpre
+  (low_all H hf T (rank nt + 1)).query nt (Nat.lt_succ_self _) hrow n s p hn hb hc hpre
 
 /-- **TERMINATION**: with fuel at least `(rank start + 1) · (L + Al + A + 6)` for every start symbol, the
     generator raises `StopIteration` after finitely many `next` (every `next` returns:
     `UHS.next_total`; the yielded programs are distinct members of a finite language) -/
 theorem C02_HS_U_stops (E : UHS.Env U π) (rank : UHS.UNT U → Nat) (Good : π → Prop) (R : RHyp E rank Good)
-    (L Al A : Nat) (T : THyp E L Al A) (fuel : Nat) (hf : FuelOK E rank (L + Al + A + 6) fuel) :
+    (hnf : ∀ p, E.filter p = true) (L Al A : Nat) (T : THyp E L Al A) (fuel : Nat) (hf : FuelOK E rank (L + Al + A + 6) fuel) :
     ∃ k s' out, UHS.take E fuel k (UHS.St.empty E.G) [] = some (s', out, true) :=
-  take_stops R T hf
+  take_stops R hnf T hf
 
 /-- **C02 FOR THE UNAMBIGUOUS-GRAMMAR MACHINE ON ACYCLIC UNAMBIGUOUS GRAMMARS (full statement)**: for every
     sufficient fuel there is a number `k` of `next` steps after which the generator has stopped, and its
@@ -696,11 +696,12 @@ theorem C02_HS_U_stops (E : UHS.Env U π) (rank : UHS.UNT U → Nat) (Good : π 
     Heap search = `UHeapSearch` with threshold 0 and no filter (`UHS.rhyp_prob`); the theorem holds for
     every priority type with a strict weak order and a monotone `combine`. -/
 theorem C02_HS_U_full (E : UHS.Env U π) (rank : UHS.UNT U → Nat) (Good : π → Prop) (R : RHyp E rank Good)
-    (L Al A : Nat) (T : THyp E L Al A) (d : UHS.UNT U) (fuel : Nat) (hf : FuelOK E rank (L + Al + A + 6) fuel) :
+    (hnf : ∀ p, E.filter p = true) (L Al A : Nat) (T : THyp E L Al A) (d : UHS.UNT U) (fuel : Nat)
+    (hf : FuelOK E rank (L + Al + A + 6) fuel) :
     ∃ k s' out, UHS.take E fuel k (UHS.St.empty E.G) [] = some (s', out, true) ∧
       out.Nodup ∧ ∀ p, p ∈ out ↔ PS.U.genU (E.G.toUCFG d) p = true := by
-  obtain ⟨k, s', out, h⟩ := take_stops R T hf
-  exact ⟨k, s', out, h, C02_HS_U_exactly_once E rank Good R d fuel k s' out h⟩
+  obtain ⟨k, s', out, h⟩ := take_stops R hnf T hf
+  exact ⟨k, s', out, h, C02_HS_U_exactly_once E rank Good R hnf d fuel k s' out h⟩
 
 /-- the example grammar: at most 2 rules per non-terminal, 2 alternatives, 2 arguments; max rank 2:
     enough fuel is 3 · (2 + 2 + 2 + 6) = 36 -/
@@ -708,7 +709,7 @@ theorem Eu_thyp : THyp Eu 2 2 2 := thyp_of_check Eu 2 2 2 (by decide)
 
 example : ∃ k s' out, UHS.take Eu 36 k (UHS.St.empty Gu) [] = some (s', out, true) ∧
     out.Nodup ∧ ∀ p, p ∈ out ↔ PS.U.genU (Gu.toUCFG s0) p = true :=
-  C02_HS_U_full Eu uRank2 _ Eu_rhyp 2 2 2 Eu_thyp s0 36 (fuelOK_of_check Eu uRank2 12 36 (by decide))
+  C02_HS_U_full Eu uRank2 _ Eu_rhyp (fun _ => rfl) 2 2 2 Eu_thyp s0 36 (fuelOK_of_check Eu uRank2 12 36 (by decide))
 
 /-- with that fuel the machine does stop after its 22 programs (kernel evaluation) -/
 example : (UHS.take Eu 36 30 (UHS.St.empty Gu) []).map (fun r => (r.2.1.length, r.2.2)) = some (22, true) := by
@@ -719,19 +720,19 @@ example : (UHS.take Eu 36 30 (UHS.St.empty Gu) []).map (fun r => (r.2.1.length, 
     (`UHS.rhyp_bucket`: `Bucket.__lt__` is a strict weak order on the tuples of one size, `+=` and
     `add_prob_uniform` are monotone) — the generator stops and yields every program exactly once -/
 theorem C02_HS_U_bucket_full (E : UHS.Env U UHS.Bucket) (rank : UHS.UNT U → Nat) (size : Nat)
-    (R : RHyp E rank (fun b : UHS.Bucket => b.length = size)) (L Al A : Nat) (T : THyp E L Al A) (d : UHS.UNT U)
-    (fuel : Nat) (hf : FuelOK E rank (L + Al + A + 6) fuel) :
+    (R : RHyp E rank (fun b : UHS.Bucket => b.length = size)) (hnf : ∀ p, E.filter p = true) (L Al A : Nat)
+    (T : THyp E L Al A) (d : UHS.UNT U) (fuel : Nat) (hf : FuelOK E rank (L + Al + A + 6) fuel) :
     ∃ k s' out, UHS.take E fuel k (UHS.St.empty E.G) [] = some (s', out, true) ∧
       out.Nodup ∧ ∀ p, p ∈ out ↔ PS.U.genU (E.G.toUCFG d) p = true :=
-  C02_HS_U_full E rank _ R L Al A T d fuel hf
+  C02_HS_U_full E rank _ R hnf L Al A T d fuel hf
 
 theorem Eub_rhyp : RHyp Eub uRank2 (fun b : UHS.Bucket => b.length = 3) :=
   rhyp_bucket Eub uRank2 3 rfl rfl (by decide) (by decide) (by decide) (by decide) (by decide) (by decide) (by decide)
-    (by decide) (fun _ => rfl)
+    (by decide)
 
 example : ∃ k s' out, UHS.take Eub 36 k (UHS.St.empty Gu) [] = some (s', out, true) ∧
     out.Nodup ∧ ∀ p, p ∈ out ↔ PS.U.genU (Gu.toUCFG s0) p = true :=
-  C02_HS_U_bucket_full Eub uRank2 3 Eub_rhyp 2 2 2 (thyp_of_check Eub 2 2 2 (by decide)) s0 36
+  C02_HS_U_bucket_full Eub uRank2 3 Eub_rhyp (fun _ => rfl) 2 2 2 (thyp_of_check Eub 2 2 2 (by decide)) s0 36
     (fuelOK_of_check Eub uRank2 12 36 (by decide))
 end UMachine
 
